@@ -563,4 +563,174 @@ theorem stutter_same (s s' : St) (e : Ev) (hs : isStutter e = true) (h : step s 
     · simp at h
   | _ => simp [isStutter] at hs
 
+/-! ### all phases -/
+
+/-- **Every accepted event other than the stutter `decide` decreases `mu`** (in states that
+    satisfy the invariant `Full`, i.e. in every reachable state). -/
+theorem mu_step (s s' : St) (e : Ev) (hf : Full s) (hs : isStutter e = false)
+    (h : step s e = some s') : mu s' < mu s := by
+  rcases hf with ⟨hph, _, _, _, _, e3, _⟩ | ⟨hph, _, _, _, _, e3⟩ | ⟨hph, _, hi⟩
+  · cases e with
+    | zero =>
+      simp only [step] at h
+      split at h
+      next hg =>
+        simp only [Option.some.injEq] at h; subst h
+        simp only [mu, hph, if_true]
+        rw [if_neg (by decide), if_neg (by decide)]
+        omega
+      next => simp at h
+    | plan c =>
+      simp only [step] at h
+      split at h
+      next hg =>
+        simp only [Option.some.injEq] at h; subst h
+        simp only [mu, hph, if_true, hg.2.2.1, Int.toNat_natCast]
+        show mu1 (planned s c) < mu1 (planned s c) + 2
+        omega
+      next => simp at h
+    | _ => simp [step, hph] at h
+  · cases e with
+    | sig err tok =>
+      simp only [step] at h
+      rw [if_neg (by omega)] at h
+      split at h
+      next hg =>
+        simp only [Option.some.injEq] at h; subst h
+        have h0 : s.ph ≠ 0 := by omega
+        have h1 : s.ph ≠ 1 := by omega
+        simp only [mu, h0, h1, if_false, hg.2.2.2, List.length_nil, List.length_singleton]
+        omega
+      next => simp at h
+    | _ => simp [step, hph] at h
+  · have hp' := step_ph1 s s' e hph h
+    have h0 : s.ph ≠ 0 := by omega
+    have h0' : s'.ph ≠ 0 := by omega
+    simp only [mu, hph, hp', if_true]
+    exact mu1_step s s' e hi hph hs h
+
+/-- non-stutter events of a log -/
+def work (log : List Ev) : Nat := (log.filter (fun e => !isStutter e)).length
+
+/-- **Length bound**: the number of non-stutter events of an accepted log plus the measure of
+    the state reached is at most the measure of the start state. -/
+theorem work_le_mu (s s' : St) (log : List Ev) (hf : Full s) (h : runLog step s log = some s') :
+    work log + mu s' ≤ mu s := by
+  induction log generalizing s with
+  | nil => simp only [runLog_nil, Option.some.injEq] at h; subst h; simp [work]
+  | cons e es ih =>
+    simp only [runLog] at h
+    cases hs : step s e with
+    | none => simp [hs] at h
+    | some s1 =>
+      simp only [hs] at h
+      have := ih s1 (full_step s s1 e hf hs) h
+      cases hst : isStutter e with
+      | true =>
+        have := stutter_same s s1 e hst hs
+        subst this
+        have : work (e :: es) = work es := by simp [work, hst]
+        omega
+      | false =>
+        have := mu_step s s1 e hf hst hs
+        have : work (e :: es) = work es + 1 := by simp [work, hst]
+        omega
+
+/-! ### the explicit bound -/
+
+theorem qw_tele (W c n : Nat) (a : Nat → Nat) (m : Nat) (hm : ∀ k, k < m → a k ≤ a (k + 1)) :
+    sumTo m (fun k => qw W c n (a k, a (k + 1))) = qw W c n (a 0, a m) ∧ a 0 ≤ a m := by
+  induction m with
+  | zero => simp [qw]
+  | succ j ih =>
+    obtain ⟨e, hle⟩ := ih (fun k hk => hm k (by omega))
+    have h1 := hm j (by omega)
+    simp only [sumTo_succ]
+    rw [e]
+    refine ⟨?_, by omega⟩
+    unfold qw
+    dsimp only
+    have c1 := cut_mono_le c n hle
+    have c2 := cut_mono_le c n h1
+    have : (W + 2) * (a (j + 1) - a 0) = (W + 2) * (a j - a 0) + (W + 2) * (a (j + 1) - a j) := by
+      rw [← Nat.mul_add]; congr 1; omega
+    omega
+
+theorem nchunks_le (c n : Nat) (hc : 1 ≤ c) : nchunks c n ≤ n := by
+  unfold nchunks
+  by_cases hn : n = 0
+  · subst hn
+    have : (0 + c - 1) / c = 0 := Nat.div_eq_of_lt (by omega)
+    omega
+  · have : (n + c - 1) / c ≤ (n * c) / c := by
+      apply Nat.div_le_div_right
+      have : n * c = (n - 1) * c + c := by
+        have : n = (n - 1) + 1 := by omega
+        conv => lhs; rw [this, Nat.succ_mul]
+      have : n - 1 ≤ (n - 1) * c := Nat.le_mul_of_pos_right _ (by omega)
+      omega
+    rw [Nat.mul_div_cancel _ (by omega : 0 < c)] at this
+    exact this
+
+/-- explicit bound on the number of (non-stutter) events of `bulk` with shape `n` on `w`
+    workers: `2n` calls / returns, `(w + 2)` per chunk (at most `n` chunks), and
+    `3w + 10` per worker, 1 completion, 2 for `set_value` -/
+def bound (n w : Nat) : Nat := (w + 4) * n + w * (3 * w + 10) + 3
+
+theorem mu1_planned (S : CTy) (w n L : Nat) (v : Int) (c : Nat) (hsafe : SafeC S w n c) :
+    mu1 (planned (init S w n L v) c) = 2 * n + (w + 2) * nchunks c n + w * (3 * w + 10) + 1 := by
+  have hpa : ∀ k, k ≤ w → cutsOf S w n c k = part w (nchunks c n) k :=
+    fun k hk => cutsOf_ideal S w n c hsafe k hk
+  have hc1 : 1 ≤ c := hsafe.2.1
+  have hw1 : 1 ≤ w := hsafe.2.2.2.1
+  obtain ⟨t1, _⟩ := qw_tele w c n (cutsOf S w n c) w (fun k hk => by
+    rw [hpa k (by omega), hpa (k + 1) (by omega)]; exact part_mono _ _ k)
+  rw [hpa 0 (by omega), hpa w (by omega), part_zero, part_last _ _ (by omega)] at t1
+  have q : qw w c n (0, nchunks c n) = 2 * n + (w + 2) * nchunks c n := by
+    unfold qw; dsimp only
+    rw [cut_last c n (by omega), cut_zero]; simp only [Nat.sub_zero]
+  have e1 : sumTo w (fun k => pcw w (Bulk.Pc.idle)) = w * (3 * w + 8) := by
+    have hp : pcw w (Bulk.Pc.idle) = 3 * w + 8 := rfl
+    rw [hp]
+    generalize 3 * w + 8 = z
+    have : ∀ m, sumTo m (fun _ => z) = m * z := by
+      intro m; induction m with
+      | zero => simp
+      | succ j ih => rw [sumTo_succ, ih, Nat.succ_mul]
+    exact this w
+  have e2 : sumTo w (fun _ => lpw c n Lp.out) = 0 := sumTo_eq_zero (fun _ _ => rfl)
+  have e3 : sumTo w (fun k => exw (planned (init S w n L v) c) k) = w * 2 := by
+    have : ∀ k, exw (planned (init S w n L v) c) k = 2 := fun k => rfl
+    simp only [this]
+    have : ∀ m, sumTo m (fun _ => 2) = m * 2 := by
+      intro m; induction m with
+      | zero => simp
+      | succ j ih => rw [sumTo_succ, ih, Nat.succ_mul]
+    exact this w
+  unfold mu1
+  show sumTo w (fun k => qw w c n (cutsOf S w n c k, cutsOf S w n c (k + 1))) +
+      sumTo w (fun k => pcw w (Bulk.Pc.idle)) + sumTo w (fun _ => lpw c n Lp.out) +
+      sumTo w (fun k => exw (planned (init S w n L v) c) k) + (1 - 0) = _
+  rw [t1, q, e1, e2, e3]
+  have : w * (3 * w + 10) = w * (3 * w + 8) + w * 2 := by rw [← Nat.mul_add]
+  omega
+
+/-- the measure of the start state is at most the explicit bound -/
+theorem mu_init_le (S : CTy) (w n L : Nat) (v : Int) (hs : Safe S w n) :
+    mu (init S w n L v) ≤ bound n w := by
+  obtain ⟨c, hc, hsafe⟩ := C11_chunk_size_safe S w n hs
+  have e : mu (init S w n L v) = mu1 (planned (init S w n L v) c) + 2 := by
+    unfold mu
+    rw [if_pos (show (init S w n L v).ph = 0 from rfl)]
+    show (match chunkSizeOf S fuel w n with
+          | some c => mu1 (planned (init S w n L v) c.toNat) | none => 0) + 2 = _
+    rw [hc]
+    simp only [Int.toNat_natCast]
+  rw [e, mu1_planned S w n L v c hsafe]
+  have hn := nchunks_le c n hsafe.2.1
+  have : (w + 2) * nchunks c n ≤ (w + 2) * n := Nat.mul_le_mul_left _ hn
+  have : (w + 4) * n = 2 * n + (w + 2) * n := by rw [← Nat.add_mul]; congr 1; omega
+  unfold bound
+  omega
+
 end PikaVerif.BulkC
